@@ -24,7 +24,8 @@ EvCap == atoi(IOEnv.EVCAP)
 VARIABLES i, s0
 (* initial valuations: integers -B..B; an array variable (pr.kinds[k] = "arr", programs of proggen.array_live_program)
    starts with every tuple of pr.ncells integer cells *)
-RangeOf(pr, k) == IF "kinds" \in DOMAIN pr /\ pr.kinds[k] = "arr" THEN [1..pr.ncells -> (-B)..B] ELSE (-B)..B
+RangeOf(pr, k) == IF "kinds" \in DOMAIN pr /\ pr.kinds[k] = "arr" THEN [1..pr.ncells -> (-B)..B]
+                  ELSE IF "kinds" \in DOMAIN pr /\ pr.kinds[k] = "bool" THEN 0..1 ELSE (-B)..B
 RECURSIVE StatesN(_, _)
 StatesN(pr, m) == IF m = 0 THEN {<<>>} ELSE {Append(q, w) : q \in StatesN(pr, m - 1), w \in RangeOf(pr, m)}
 StatesOf(pr) == IF "kinds" \in DOMAIN pr THEN StatesN(pr, pr.nv) ELSE [1..pr.nv -> (-B)..B]
@@ -34,9 +35,13 @@ Next == UNCHANGED <<i, s0>>
 Spec == Init /\ [][Next]_<<i, s0>>
 
 P == Pairs[i]
-Hv(x) == (-B)..B
+Hv(x) == RangeOf(P, x)
 Outs(s) == [k \in DOMAIN P.outs |-> s[P.outs[k]]]
-IsEvent(st) == st.op \in {"assume", "assert"}
+IsEvent(st) == st.op \in {"assume", "assert", "bassume", "bassert"}
+(* outcome of an evaluated condition, and what a behaviour records of it *)
+CondHolds(st, s) == IF st.op \in {"assume", "assert"} THEN Holds(st.c, s)
+                    ELSE IF st.op = "bassume" THEN s[st.x] = (IF st.neg = 1 THEN 0 ELSE 1) ELSE s[st.x] = 1
+EventOf(st) == IF st.op \in {"assume", "assert"} THEN st.c ELSE [bx |-> st.x, neg |-> IF st.op = "bassume" THEN st.neg ELSE 0]
 
 (* one small step of configuration c = [b, i, s, ev] in cfg g *)
 StepCfg(g, c) ==
@@ -44,8 +49,8 @@ StepCfg(g, c) ==
   IN IF c.i <= Len(stmts)
        THEN LET st == stmts[c.i]
             IN IF IsEvent(st)
-                 THEN IF Holds(st.c, c.s) /\ Len(c.ev) < EvCap
-                        THEN {[c EXCEPT !.i = c.i + 1, !.ev = Append(c.ev, st.c)]} ELSE {}
+                 THEN IF CondHolds(st, c.s) /\ Len(c.ev) < EvCap
+                        THEN {[c EXCEPT !.i = c.i + 1, !.ev = Append(c.ev, EventOf(st))]} ELSE {}
                  ELSE {[c EXCEPT !.i = c.i + 1, !.s = q] : q \in Succ(st, c.s, U, Hv)}
        ELSE {[c EXCEPT !.b = g.blocks[c.b].succ[k], !.i = 1] : k \in DOMAIN g.blocks[c.b].succ}
 AtExitEnd(g, c) == c.b = g.exit /\ c.i = Len(g.blocks[c.b].stmts) + 1
